@@ -36,7 +36,7 @@ Proof.
 Qed.
 Ltac rw := idtac.
 
-Ltac known := pbl_run; pbl_model; first [ reflexivity | pbl_returns rw ].
+Ltac known := timeout 20 (pbl_run; pbl_model; first [ reflexivity | pbl_returns rw ]).
 
 Theorem bridge_fun_vertical_profiles : forall a : vp_args, vp_matches (gen_vp a) (vp_outcome a).
 Proof.
